@@ -23,6 +23,7 @@ def dispatch (line : String) : String :=
     | "shape" => shapeRun body
     | "parse" => parseRun body
     | "grp" => grpRun body
+    | "egs" => egsRun body
     | "eg" => egRun body
     | "expl" => explRun body
     | "prog" => progRun body
